@@ -1,4 +1,4 @@
-(** C13: a dry run reports exactly the targets a real build of the same tree attempts (when the real build succeeds). *)
+(** C13: a dry run reports exactly the targets a real build of the same tree attempts (everything the real build did not cut off below a failure). *)
 From Dawn Require Import Build.Model Build.Proofs Build.Proofs_Fresh Build.Proofs_Noop.
 
 (** every generated path has one generator *)
@@ -23,38 +23,53 @@ Qed.
 
 Definition dry_of (c : bcfg) : bcfg := mkCfg (c_always c) true (c_fail c) false [] [] [].
 
+(** [l] was not cut off by a failed dependency in the real run: unvisited, succeeded, or its own body failed *)
+Definition attempted (vis : list (label * visit)) (l : label) : Prop :=
+  forall v, lookup l vis = Some v -> v_res v = ROk \/ v_res v = RFailBody.
+
 Record psim (pr : project) (w : world) (sd sr : bstate) : Prop := {
   ps_wd : b_w sd = w;
   ps_pr : w_proj (b_w sr) = pr;
   ps_dom : forall l, lookup l (b_vis sd) = None <-> lookup l (b_vis sr) = None;
-  ps_vis : forall l vd vr, lookup l (b_vis sd) = Some vd -> lookup l (b_vis sr) = Some vr ->
-             v_res vd = ROk /\ v_res vr = ROk /\ v_changed vd = v_changed vr /\
+  ps_vis : forall l vd vr, lookup l (b_vis sd) = Some vd -> lookup l (b_vis sr) = Some vr -> v_res vr = ROk ->
+             v_res vd = ROk /\ v_changed vd = v_changed vr /\
              (v_changed vd = false -> stamp_of vd = stamp_of vr);
   ps_rec : forall l, lookup l (b_vis sr) = None -> rec_of (b_w sr) l = rec_of w l;
   ps_files : forall p, lookup p (w_files (b_w sr)) = lookup p (w_files w) \/
                exists l d vr, lookup l pr = Some d /\ mem p (def_gens d) = true /\
                               lookup l (b_vis sr) = Some vr /\ v_changed vr = true;
-  ps_ev : forall l, In (EEvaluating l) (b_events sd) <-> In (EEvaluating l) (b_events sr);
+  ps_ev : forall l, attempted (b_vis sr) l ->
+             (In (EEvaluating l) (b_events sd) <-> In (EEvaluating l) (b_events sr));
   ps_bad : b_bad sd = b_bad sr
 }.
 
-(** dependency visits of the two runs correspond *)
+(** dependency visits of the two runs correspond when the real run's all succeeded *)
+Lemma first_failure_none' vs : first_failure vs = None -> forall o v, In (o, v) vs -> v_res v = ROk.
+Proof.
+  induction vs as [|[x vx] vs IH]; simpl; intros H o v Hin; [destruct Hin|].
+  destruct (v_res vx) eqn:E; simpl in H; try discriminate.
+  destruct Hin as [Heq|Hin]; [inversion Heq; subst; exact E|apply (IH H o v Hin)].
+Qed.
+
 Lemma dep_visits_psim pr w sd sr dl vsd vsr :
   psim pr w sd sr ->
   dep_visits (b_vis sd) dl = Some vsd -> dep_visits (b_vis sr) dl = Some vsr ->
-  first_failure vsd = None /\ first_failure vsr = None /\
+  first_failure vsr = None ->
+  first_failure vsd = None /\
   forall r, deps_up_to_date r vsd = deps_up_to_date r vsr.
 Proof.
-  intros P. revert vsd vsr. induction dl as [|x dl IH]; intros vsd vsr Hd Hr; simpl in Hd, Hr.
-  - inversion Hd; inversion Hr; subst. repeat split; reflexivity.
+  intros P. revert vsd vsr. induction dl as [|x dl IH]; intros vsd vsr Hd Hr Hff; simpl in Hd, Hr.
+  - inversion Hd; inversion Hr; subst. split; reflexivity.
   - destruct (lookup x (b_vis sd)) as [vd|] eqn:Hxd; [|discriminate].
     destruct (lookup x (b_vis sr)) as [vr|] eqn:Hxr; [|discriminate].
     destruct (dep_visits (b_vis sd) dl) as [vsd'|]; [|discriminate].
     destruct (dep_visits (b_vis sr) dl) as [vsr'|]; [|discriminate].
     inversion Hd; inversion Hr; subst.
-    destruct (IH vsd' vsr' eq_refl eq_refl) as (F1 & F2 & F3).
-    destruct (ps_vis _ _ _ _ P x vd vr Hxd Hxr) as (Okd & Okr & Hch & Hst).
-    simpl. rewrite Okd, Okr. simpl. split; [exact F1|split; [exact F2|]].
+    assert (Okr : v_res vr = ROk) by (apply (first_failure_none' _ Hff x vr); left; reflexivity).
+    assert (Hff' : first_failure vsr' = None) by (simpl in Hff; rewrite Okr in Hff; exact Hff).
+    destruct (IH vsd' vsr' eq_refl eq_refl Hff') as (F1 & F3).
+    destruct (ps_vis _ _ _ _ P x vd vr Hxd Hxr Okr) as (Okd & Hch & Hst).
+    simpl. rewrite Okd. simpl. split; [exact F1|].
     intros r. unfold deps_up_to_date in *. cbn [forallb fst snd]. rewrite (F3 r). f_equal.
     destruct (lookup x (r_deps r)) as [prev|]; [|reflexivity].
     rewrite <- Hch. destruct (v_changed vd) eqn:E; simpl.
@@ -153,41 +168,117 @@ Proof.
   exfalso. apply Hne. exact (Hlab _ H).
 Qed.
 
+Lemma step_target_depfail c w l d r vs f w' v evs ran :
+  first_failure vs = Some f -> step_target c w l d r vs = (w', v, evs, ran) ->
+  w' = w /\ (v_res v = RFailDep \/ v_res v = RCut).
+Proof.
+  unfold step_target. intros ->. destruct f; intros H; inversion H; subst; split; try reflexivity; simpl; auto.
+Qed.
+
+Lemma step_target_files_fail c w l d r vs w' v evs ran :
+  c_crashed c = false -> step_target c w l d r vs = (w', v, evs, ran) -> v_res v <> ROk -> w_files w' = w_files w.
+Proof.
+  intros Hcr. unfold step_target. rewrite Hcr. cbn [andb].
+  destruct (first_failure vs) as [[]|]; try (intros H _; inversion H; subst; reflexivity).
+  destruct (negb (c_always c) && deps_up_to_date r vs && up_to_date w d r &&
+            negb (r_rerun r || match d with Fn _ _ _ _ _ a => a | Src _ => false end)).
+  { intros H _; inversion H; subst; reflexivity. }
+  destruct (c_dry c). { intros H _; inversion H; subst; reflexivity. }
+  destruct d as [deps srcs gens env k alw|p].
+  - destruct (mem l (c_fail c)); intros H Hne; inversion H; subst; [reflexivity|]. simpl in Hne. contradiction.
+  - intros H Hne; inversion H; subst. reflexivity.
+Qed.
+
+Lemma attempted_update_other vis l v x : x <> l -> (attempted (update l v vis) x <-> attempted vis x).
+Proof. intros Hne. unfold attempted. rewrite (lookup_update_other _ _ _ _ Hne). reflexivity. Qed.
+
 Lemma eval1_psim c pr w sd sr l :
   c_dry c = false -> c_crashed c = false -> link_ok pr = true -> gens_unique pr -> w_proj w = pr ->
   psim pr w sd sr ->
-  (forall v, lookup l (b_vis (eval1 c sr l)) = Some v -> v_res v = ROk) ->
   psim pr w (eval1 (dry_of c) sd l) (eval1 c sr l).
 Proof.
-  intros Hdry Hcr Hlink Hgu Hwpr P Hok.
+  intros Hdry Hcr Hlink Hgu Hwpr P.
   destruct (lookup l (b_vis sr)) as [v0|] eqn:Hlr.
   { assert (Hld : lookup l (b_vis sd) <> None).
     { intros E. apply (ps_dom _ _ _ _ P l) in E. congruence. }
     destruct (lookup l (b_vis sd)) as [vd0|] eqn:Hld'; [|contradiction].
     rewrite (eval1_visited _ _ _ _ Hlr), (eval1_visited _ _ _ _ Hld'). exact P. }
   assert (Hld : lookup l (b_vis sd) = None) by (apply (ps_dom _ _ _ _ P l); exact Hlr).
-  revert Hok. unfold eval1. rewrite Hlr, Hld, (ps_wd _ _ _ _ P), (ps_pr _ _ _ _ P), Hwpr.
+  (* the generic reconstruction of the invariant after a step of [l]: the dry side never changes its world *)
+  assert (Hgen : forall vd ed rand wr' vr er ranr,
+            w_proj wr' = w_proj (b_w sr) ->
+            (forall x, x <> l -> rec_of wr' x = rec_of (b_w sr) x) ->
+            (forall p, lookup p (w_files wr') = lookup p (w_files (b_w sr)) \/
+                       (mem p (match lookup l pr with Some d => def_gens d | None => [] end) = true /\ v_res vr = ROk /\ v_changed vr = true)) ->
+            (forall e, In e ed -> ev_label e = l) -> (forall e, In e er -> ev_label e = l) ->
+            (v_res vr = ROk -> v_res vd = ROk /\ v_changed vd = v_changed vr /\ (v_changed vd = false -> stamp_of vd = stamp_of vr)) ->
+            (v_res vr = ROk \/ v_res vr = RFailBody -> (In (EEvaluating l) ed <-> In (EEvaluating l) er)) ->
+            psim pr w (finish sd w l vd ed rand) (finish sr wr' l vr er ranr)).
+  { intros vd ed rand wr' vr er ranr Fproj Frec Ffiles Labd Labr Hv Hev.
+    unfold finish. destruct P as [P1 P2 P3 P4 P5 P6 P7 P8].
+    constructor; cbn [b_w b_vis b_events b_bad]; try assumption; try reflexivity.
+    - rewrite Fproj. exact P2.
+    - intros x. destruct (N.eq_dec x l) as [->|Hne].
+      + rewrite !lookup_update_same. split; discriminate.
+      + rewrite !(lookup_update_other _ _ _ _ Hne). apply P3.
+    - intros x vdx vrx. destruct (N.eq_dec x l) as [->|Hne].
+      + rewrite !lookup_update_same. intros E1 E2. inversion E1; inversion E2; subst. exact Hv.
+      + rewrite !(lookup_update_other _ _ _ _ Hne). apply P4.
+    - intros x Hx. destruct (N.eq_dec x l) as [->|Hne]; [rewrite lookup_update_same in Hx; discriminate|].
+      rewrite (lookup_update_other _ _ _ _ Hne) in Hx. rewrite (Frec x Hne). apply P5. exact Hx.
+    - intros p. destruct (Ffiles p) as [E|(Hmem & Hokr & Hch)].
+      + rewrite E. destruct (P6 p) as [E'|Wit]; [left; exact E'|right; apply psim_witness_persist; assumption].
+      + right. destruct (lookup l pr) as [d|] eqn:Hd; [|simpl in Hmem; discriminate].
+        exists l, d, vr. repeat split; try assumption. apply lookup_update_same.
+    - intros x Hx. destruct (N.eq_dec x l) as [->|Hne].
+      + assert (Hat : v_res vr = ROk \/ v_res vr = RFailBody) by (apply (Hx vr); apply lookup_update_same).
+        specialize (Hev Hat).
+        assert (Hno_d : ~ In (EEvaluating l) (b_events sd) -> ~ In (EEvaluating l) (b_events sr) -> True) by auto.
+        split; intros H; apply in_app_or in H; apply in_or_app.
+        * destruct H as [H|H]; [left; apply Hev; exact H|right; apply (P7 l); [|exact H]].
+          intros v Hv0. congruence.
+        * destruct H as [H|H]; [left; apply Hev; exact H|right; apply (P7 l); [|exact H]].
+          intros v Hv0. congruence.
+      + apply (proj1 (attempted_update_other _ l vr x Hne)) in Hx.
+        rewrite (in_evaluating_other l x ed _ Labd Hne), (in_evaluating_other l x er _ Labr Hne). apply P7. exact Hx. }
+  unfold eval1. rewrite Hlr, Hld, (ps_wd _ _ _ _ P), (ps_pr _ _ _ _ P), Hwpr.
   destruct (lookup l pr) as [d|] eqn:Hd.
-  2:{ intros Hok. exfalso. unfold finish in Hok; cbn [b_vis] in Hok.
-      specialize (Hok _ (lookup_update_same l _ (b_vis sr))). simpl in Hok. discriminate. }
+  2:{ apply Hgen.
+      - reflexivity.
+      - intros x _. reflexivity.
+      - intros p; left; reflexivity.
+      - intros e [].
+      - intros e [].
+      - simpl. discriminate.
+      - simpl. intros [H|H]; discriminate. }
   pose proof (dep_visits_dom pr w sd sr (deps_of pr d) P) as Hdom.
   destruct (dep_visits (b_vis sd) (deps_of pr d)) as [vsd|] eqn:Hvsd;
     destruct (dep_visits (b_vis sr) (deps_of pr d)) as [vsr|] eqn:Hvsr.
   2:{ destruct Hdom as [_ Hx]. specialize (Hx eq_refl). discriminate. }
   2:{ destruct Hdom as [Hx _]. specialize (Hx eq_refl). discriminate. }
-  2:{ intros _. destruct P. constructor; cbn [b_w b_vis b_events b_bad]; try assumption; try reflexivity. }
-  destruct (dep_visits_psim pr w sd sr _ _ _ P Hvsd Hvsr) as (Ffd & Ffr & Hdu).
+  2:{ destruct P. constructor; cbn [b_w b_vis b_events b_bad]; try assumption; try reflexivity. }
   rewrite (ps_rec _ _ _ _ P l Hlr).
   set (r := rec_of w l).
   destruct (step_target (dry_of c) w l d r vsd) as [[[wd' vd] ed] rand] eqn:Hsd.
   destruct (step_target c (b_w sr) l d r vsr) as [[[wr' vr] er] ranr] eqn:Hsr.
-  intros Hok.
-  assert (Hokr : v_res vr = ROk).
-  { apply Hok. unfold finish; cbn [b_vis]. apply lookup_update_same. }
+  assert (Hwd : wd' = w) by (apply (step_target_dry (dry_of c) w l d r vsd wd' vd ed rand eq_refl Hsd)).
+  subst wd'.
   pose proof (step_target_shape _ _ _ _ _ _ _ _ _ _ Hsd) as Shd.
   pose proof (step_target_shape _ _ _ _ _ _ _ _ _ _ Hsr) as Shr.
   pose proof (shape_labels _ _ _ Shd) as Labd. pose proof (shape_labels _ _ _ Shr) as Labr.
   destruct (step_target_frame _ _ _ _ _ _ _ _ _ _ Hsr) as (Fproj & Frec & Ffiles).
+  destruct (first_failure vsr) as [f|] eqn:Ffr.
+  { (* a dependency failed in the real run: [l] is cut off there *)
+    destruct (step_target_depfail _ _ _ _ _ _ _ _ _ _ _ Ffr Hsr) as [-> Hres].
+    apply Hgen.
+    - reflexivity.
+    - intros x _. reflexivity.
+    - intros p; left; reflexivity.
+    - exact Labd.
+    - exact Labr.
+    - intros Hok. destruct Hres as [E|E]; rewrite E in Hok; discriminate.
+    - intros [Hok|Hok]; destruct Hres as [E|E]; rewrite E in Hok; discriminate. }
+  destruct (dep_visits_psim pr w sd sr _ _ _ P Hvsd Hvsr Ffr) as (Ffd & Hdu).
   (* the two runs take the same decision *)
   assert (Hcond : skip_cond (dry_of c) w d r vsd = skip_cond c (b_w sr) d r vsr).
   { unfold skip_cond, r. cbn [dry_of c_always]. rewrite (Hdu (rec_of w l)).
@@ -198,60 +289,67 @@ Proof.
       destruct (lookup dl (r_deps (rec_of w l))); [|discriminate].
       apply andb_prop in Hdur. destruct Hdur as [_ Hn]. apply negb_true_iff in Hn. exact Hn. }
     rewrite (up_to_date_psim pr w sd sr l d vsr P Hlink Hgu Hd Hlr Hvsr Hunch). reflexivity. }
-  destruct (step_target_cases (dry_of c) w l d r vsd wd' vd ed rand eq_refl Ffd Hsd)
-    as [(Cd & -> & -> & ->)|(Cd & Evd & Dryd & _)];
+  destruct (step_target_cases (dry_of c) w l d r vsd w vd ed rand eq_refl Ffd Hsd)
+    as [(Cd & _ & Evd0 & Eed)|(Cd & Evd & Dryd & _)];
   destruct (step_target_cases c (b_w sr) l d r vsr wr' vr er ranr Hcr Ffr Hsr)
-    as [(Cr & -> & -> & ->)|(Cr & Evr & _ & Chr)]; try congruence.
+    as [(Cr & Ewr & Evr0 & Eer)|(Cr & Evr & _ & Chr)]; try congruence.
   - (* both up to date *)
-    unfold finish. destruct P as [P1 P2 P3 P4 P5 P6 P7 P8].
-    constructor; cbn [b_w b_vis b_events b_bad]; try assumption; try reflexivity.
-    + intros x. destruct (N.eq_dec x l) as [->|Hne].
-      * rewrite !lookup_update_same. split; discriminate.
-      * rewrite !(lookup_update_other _ _ _ _ Hne). apply P3.
-    + intros x vdx vrx. destruct (N.eq_dec x l) as [->|Hne].
-      * rewrite !lookup_update_same. intros E1 E2. inversion E1; inversion E2; subst. repeat split.
-      * rewrite !(lookup_update_other _ _ _ _ Hne). apply P4.
-    + intros x Hx. apply P5. destruct (N.eq_dec x l) as [->|Hne];
-        [rewrite lookup_update_same in Hx; discriminate|rewrite (lookup_update_other _ _ _ _ Hne) in Hx; exact Hx].
-    + intros p. destruct (P6 p) as [E|Wit]; [left; exact E|right; apply psim_witness_persist; assumption].
-    + intros x. simpl. split; intros [E|H]; try discriminate; right; apply (P7 x); exact H.
-  - (* both evaluate *)
-    destruct (Dryd eq_refl) as [-> ->].
-    specialize (Chr Hokr).
-    unfold finish. destruct P as [P1 P2 P3 P4 P5 P6 P7 P8].
-    constructor; cbn [b_w b_vis b_events b_bad]; try assumption; try reflexivity.
-    + rewrite Fproj. exact P2.
-    + intros x. destruct (N.eq_dec x l) as [->|Hne].
-      * rewrite !lookup_update_same. split; discriminate.
-      * rewrite !(lookup_update_other _ _ _ _ Hne). apply P3.
-    + intros x vdx vrx. destruct (N.eq_dec x l) as [->|Hne].
-      * rewrite !lookup_update_same. intros E1 E2. inversion E1; inversion E2; subst.
-        cbn [v_res v_changed]. split; [reflexivity|split; [exact Hokr|split; [symmetry; exact Chr|discriminate]]].
-      * rewrite !(lookup_update_other _ _ _ _ Hne). apply P4.
-    + intros x Hx. destruct (N.eq_dec x l) as [->|Hne]; [rewrite lookup_update_same in Hx; discriminate|].
-      rewrite (lookup_update_other _ _ _ _ Hne) in Hx. rewrite (Frec x Hne). apply P5. exact Hx.
-    + intros p. destruct (Ffiles p) as [E|[Hmem _]].
-      * rewrite E. destruct (P6 p) as [E'|Wit]; [left; exact E'|right; apply psim_witness_persist; assumption].
-      * right. exists l, d, vr. repeat split; try assumption. apply lookup_update_same.
-    + intros x. destruct (N.eq_dec x l) as [->|Hne].
-      * split; intros _; apply in_or_app; left; assumption.
-      * rewrite (in_evaluating_other l x ed _ Labd Hne), (in_evaluating_other l x er _ Labr Hne). apply P7.
+    subst. apply Hgen.
+    + reflexivity.
+    + intros x _. reflexivity.
+    + intros p; left; reflexivity.
+    + exact Labd.
+    + exact Labr.
+    + intros _. cbn [v_res v_changed stamp_of v_data v_run]. repeat split.
+    + intros _. reflexivity.
+  - (* both evaluate; the real body may fail *)
+    destruct (Dryd eq_refl) as [_ ->].
+    apply Hgen.
+    + exact Fproj.
+    + exact Frec.
+    + intros p. destruct (result_ok (v_res vr)) eqn:Hrk.
+      * assert (Hokr : v_res vr = ROk) by (destruct (v_res vr); simpl in Hrk; try discriminate; reflexivity).
+        destruct (Ffiles p) as [E|[Hmem _]]; [left; exact E|]. right.
+        split; [exact Hmem|split; [exact Hokr|apply Chr; exact Hokr]].
+      * left. rewrite (step_target_files_fail c (b_w sr) l d r vsr wr' vr er ranr Hcr Hsr); [reflexivity|].
+        intros E. rewrite E in Hrk. discriminate.
+    + exact Labd.
+    + exact Labr.
+    + intros Hokr. cbn [v_res v_changed]. split; [reflexivity|split; [symmetry; apply Chr; exact Hokr|discriminate]].
+    + intros _. split; intros _; assumption.
 Qed.
 
 Lemma fold_psim c pr w order : forall sd sr,
   c_dry c = false -> c_crashed c = false -> link_ok pr = true -> gens_unique pr -> w_proj w = pr ->
   psim pr w sd sr ->
-  (forall x v, lookup x (b_vis (fold_left (eval1 c) order sr)) = Some v -> v_res v = ROk) ->
   psim pr w (fold_left (eval1 (dry_of c)) order sd) (fold_left (eval1 c) order sr).
 Proof.
-  induction order as [|l order IH]; intros sd sr Hdry Hcr Hlink Hgu Hw P Hok; simpl; [exact P|].
-  apply IH; try assumption.
-  apply eval1_psim; try assumption.
-  intros v Hv. apply (Hok l v). simpl. apply fold_vis_persist. exact Hv.
+  induction order as [|l order IH]; intros sd sr Hdry Hcr Hlink Hgu Hw P; simpl; [exact P|].
+  apply IH; try assumption. apply eval1_psim; assumption.
 Qed.
 
-(** C13: when the real build visits every target successfully, the dry run of the same tree reports 'evaluating' for
-    exactly the same targets (and, by [dry_build_no_effects], executes none of them). *)
+(** C13: the dry run reports 'evaluating' for exactly the targets the real build of the same tree attempts -- for every
+    target that the real build did not cut off because one of its dependencies failed (it succeeded, or its own body
+    failed, or it is outside the closure). Targets downstream of a failure are the only ones on which the two differ. *)
+Theorem dry_run_predicts_attempted c w l :
+  c_dry c = false -> c_crashed c = false -> link_ok (w_proj w) = true -> gens_unique (w_proj w) ->
+  let real := build c w l in
+  let dry := build (dry_of c) w l in
+  forall x, attempted (o_vis real) x ->
+    (In (EEvaluating x) (o_events dry) <-> In (EEvaluating x) (o_events real)).
+Proof.
+  intros Hdry Hcr Hlink Hgu. cbv zeta. unfold build. rewrite load_proj, Hlink.
+  rewrite (premark_nocrash c _ Hcr), (premark_dry (dry_of c) _ eq_refl).
+  unfold run_order; cbn [o_vis o_events]. intros x Hx.
+  assert (P0 : psim (w_proj w) (load w) (mkB (load w) [] [] [] false) (mkB (load w) [] [] [] false)).
+  { constructor; cbn [b_w b_vis b_events b_bad]; try reflexivity.
+    - intros y vd vr H. simpl in H. discriminate.
+    - intros p. left. reflexivity. }
+  pose proof (fold_psim c (w_proj w) (load w) (order_of (w_proj w) l) _ _ Hdry Hcr Hlink Hgu (load_proj w) P0) as P.
+  rewrite <- !in_rev. apply (ps_ev _ _ _ _ P x). exact Hx.
+Qed.
+
+(** ... in particular, when the real build visits every target successfully, for every target *)
 Theorem dry_run_predicts c w l :
   c_dry c = false -> c_crashed c = false -> link_ok (w_proj w) = true -> gens_unique (w_proj w) ->
   let real := build c w l in
@@ -259,12 +357,6 @@ Theorem dry_run_predicts c w l :
   (forall x v, lookup x (o_vis real) = Some v -> v_res v = ROk) ->
   forall x, In (EEvaluating x) (o_events dry) <-> In (EEvaluating x) (o_events real).
 Proof.
-  intros Hdry Hcr Hlink Hgu. cbv zeta. unfold build. rewrite load_proj, Hlink.
-  unfold run_order; cbn [o_vis o_events]. intros Hok x.
-  assert (P0 : psim (w_proj w) (load w) (mkB (load w) [] [] [] false) (mkB (load w) [] [] [] false)).
-  { constructor; cbn [b_w b_vis b_events b_bad]; try reflexivity.
-    - intros y vd vr H. simpl in H. discriminate.
-    - intros p. left. reflexivity. }
-  pose proof (fold_psim c (w_proj w) (load w) (order_of (w_proj w) l) _ _ Hdry Hcr Hlink Hgu (load_proj w) P0 Hok) as P.
-  rewrite <- !in_rev. apply (ps_ev _ _ _ _ P x).
+  intros Hdry Hcr Hlink Hgu real dry Hok x.
+  apply (dry_run_predicts_attempted c w l Hdry Hcr Hlink Hgu x). intros v Hv. left. apply (Hok x v Hv).
 Qed.
